@@ -83,6 +83,22 @@ func newAcc(w *pool.W, fam string) *acc {
 
 // one runs a case (after announcing it) and folds the verdict into the shard summary.
 func (a *acc) one(id string, fam string, mode int, src string, run bool, note string) {
+	a.oneX(id, fam, mode, src, run, "", note)
+}
+
+// oneAlt: a complete program (family g) with its neutral-site twin; always run.
+func (a *acc) oneAlt(id string, fam string, mode int, src, alt string, note string) {
+	a.oneX(id, fam, mode, src, true, alt, note)
+}
+
+func (a *acc) oneX(id string, fam string, mode int, src string, run bool, alt string, note string) {
+	mkCase := func(fam string, mode int, src string, run bool, note string) kase {
+		k := mkCase(fam, mode, src, run, note)
+		if i := strings.IndexByte(alt, 0); i >= 0 {
+			k.AltKind, k.Alt = alt[:i], alt[i+1:]
+		}
+		return k
+	}
 	if a.stop {
 		return
 	}
@@ -95,7 +111,7 @@ func (a *acc) one(id string, fam string, mode int, src string, run bool, note st
 		return
 	}
 	t0 := cpuNow()
-	v := check(src, mode, run)
+	v := checkAlt(src, mode, run, alt)
 	if dt := (cpuNow() - t0).Seconds(); v.Clause == "" {
 		a.sum.CPUOk += dt
 	} else {
@@ -483,8 +499,8 @@ func reduceWorker(w *pool.W, arg json.RawMessage) {
 		return
 	}
 	src, ok := caseSrc(sh.Case)
-	if !ok || sh.Case.Fam == "d-ladders" || sh.Case.Fam == "c-bytes" {
-		return
+	if !ok || sh.Case.Fam == "d-ladders" || sh.Case.Fam == "c-bytes" || sh.Case.Alt != "" {
+		return // (family g cases are one site x carrier x body each: already minimal)
 	}
 	same := func(s string) bool {
 		v := check(s, sh.Case.Mode, sh.Case.Run)
@@ -518,7 +534,7 @@ func oneWorker(w *pool.W, arg json.RawMessage) {
 	if !w.Item("one") {
 		return
 	}
-	v := check(src, k.Mode, k.Run)
+	v := checkAlt(src, k.Mode, k.Run, altArg(k))
 	w.Emit(map[string]any{"outcome": v.Outcome, "clause": v.Clause, "key": v.Key, "detail": v.Detail, "fuel": v.Fuel, "budget": budget(len(src)), "len": len(src), "src": clip(src)})
 }
 
@@ -641,6 +657,27 @@ func caseFromID(id string) kase {
 			b, _ := hex.DecodeString(p[3])
 			return mkCase("c-bytes", m, stems(m)[st]+string(b), false, "")
 		}
+	case "unit":
+		if len(p) == 3 {
+			ci, _ := strconv.Atoi(p[1])
+			q, _ := strconv.Atoi(p[2])
+			if ci < len(unitContainers) && q < len(unitSeqs) {
+				return mkCase("f-units-in-containers", unitContainers[ci].Mode, unitSrc(ci, q), false, "")
+			}
+		}
+	case "rep":
+		if len(p) == 6 {
+			var n [5]int
+			for i := range n {
+				n[i], _ = strconv.Atoi(p[i+1])
+			}
+			if bodies := reparseBodies(n[3]); n[1] < len(reparseSites) && n[2] < len(reparseCarriers) && n[4] < len(bodies) {
+				src, alt := reparseSrc(n[0], n[1], n[2], bodies[n[4]])
+				k := mkCase("g-reparsed-operands", n[0], src, true, "")
+				k.AltKind, k.Alt = reparseCarriers[n[2]].Kind, alt
+				return k
+			}
+		}
 	case "corpus":
 		if len(p) == 4 {
 			return kase{Fam: "a-corpus-" + p[2], Mode: 1, Note: fmt.Sprintf("%s %s #%s", p[1], p[2], p[3])}
@@ -662,7 +699,7 @@ func caseFromID(id string) kase {
 func main() {
 	if pool.IsWorker() {
 		defer cleanupScratch()
-		pool.Serve(map[string]pool.Handler{"tok": tokWorker, "str": strWorker, "bytes": byteWorker, "corpus": corpusWorker, "ladder": ladderWorker, "prog": progWorker, "reduce": reduceWorker, "one": oneWorker})
+		pool.Serve(map[string]pool.Handler{"tok": tokWorker, "str": strWorker, "bytes": byteWorker, "corpus": corpusWorker, "ladder": ladderWorker, "prog": progWorker, "unit": unitWorker, "reparse": reparseWorker, "reduce": reduceWorker, "one": oneWorker})
 	}
 	c := ev.New("C01")
 	if c.Replay != "" {
@@ -725,6 +762,24 @@ func main() {
 	for mode := 0; mode < 2; mode++ {
 		for st := range stems(mode) {
 			shards = append(shards, pool.Shard{Kind: "str", Arg: strShard{Mode: mode, Stem: st}})
+		}
+	}
+	// (g) complete programs with re-parsed operands: bodies of <= 2 pieces (thorough: 3)
+	bodyLen := 2
+	if !quick {
+		bodyLen = 3
+	}
+	for mode := 0; mode < 2; mode++ {
+		for si := range reparseSites {
+			for ci := range reparseCarriers {
+				shards = append(shards, pool.Shard{Kind: "reparse", Arg: reparseShard{Mode: mode, Site: si, Carrier: ci, MaxLen: bodyLen}})
+			}
+		}
+	}
+	// (f) character units inside lexical containers: both tiers
+	for ci := range unitContainers {
+		for from := 0; from < len(unitSeqs); from += 1250 {
+			shards = append(shards, pool.Shard{Kind: "unit", Arg: unitShard{C: ci, From: from, To: from + 1250}})
 		}
 	}
 	// (c)
@@ -790,7 +845,7 @@ func main() {
 
 	// development aid: VERIF_C01_FAM=abcde restricts the families (evidence is then marked non-exhaustive)
 	if fam := os.Getenv("VERIF_C01_FAM"); fam != "" {
-		keep := map[string]string{"prog": "e", "corpus": "a", "tok": "b", "str": "s", "bytes": "c", "ladder": "d"}
+		keep := map[string]string{"prog": "e", "corpus": "a", "tok": "b", "str": "s", "bytes": "c", "ladder": "d", "unit": "f", "reparse": "g"}
 		filter := func(in []pool.Shard) (out []pool.Shard) {
 			for _, s := range in {
 				if strings.Contains(fam, keep[s.Kind]) {
@@ -936,6 +991,12 @@ func main() {
 	c.Set("ladder_depths", depths)
 	c.Set("ladders_skipped_over_8MB", skipped)
 	c.Set("base_programs", len(basePrograms))
+	c.Set("unit_alphabet", fmt.Sprintf("%q", unitAlphabet))
+	c.Set("unit_sequences", len(unitSeqs))
+	c.Set("unit_containers", len(unitContainers))
+	c.Set("reparse_sites", reparseSites)
+	c.Set("reparse_carriers", reparseCarriers)
+	c.Set("reparse_bodies", fmt.Sprintf("%d (heads %v x <= %d of %d pieces)", len(reparseBodies(bodyLen)), reparseHeads, bodyLen, len(reparsePieces)))
 	c.Set("fuel_bound", fmt.Sprintf("%d*(n+1)^2 ticks for n input bytes (first pass %d+%d*(n+1); absolute cap %d, beyond it undecided)", cQuad, linBase, linPer, int64(hardCap)))
 	c.Set("max_fuel_per_sq", fmt.Sprintf("%.1f on %q", maxSq, maxSqSrc))
 	c.Set("max_fuel_per_byte", fmt.Sprintf("%.1f on %q", maxLin, maxLinSrc))
@@ -970,6 +1031,14 @@ func main() {
 		c.HarnessError("vacuous: outcomes %v", outcomes)
 	}
 	c.Finish(execs, execs, execs, fmt.Sprintf("every input of families (a)-(e) inside the bound parsed once on the instrumented lexer+parser (family e also run); states = inputs; %d corpus files, token strings <= %d over %d tokens x %d stems x 2 modes, ladders to depth %d", len(files), maxLen, len(alphabet), len(plainStems)+len(templStems), depths[len(depths)-1]))
+}
+
+// altArg packs the neutral twin of a family (g) case for checkAlt ("" for every other family).
+func altArg(k kase) string {
+	if k.Alt == "" {
+		return ""
+	}
+	return k.AltKind + "\x00" + k.Alt
 }
 
 func firstLines(s string, n int) string {
